@@ -21,7 +21,7 @@ static int P_maps, P_unmaps, P_slab_first, P_slab_additional, P_large, P_realloc
 	P_relink_full, P_mapfail_injected, P_mapfail_while_other_holds, P_skipped, P_poison_redundant, P_unpoison_redundant, P_churn_iters, P_arena_exhausted, P_lock_contention, P_recovered, P_pages_sampled, P_unaligned_slack, P_bulk_blocks, P_slab_filled, P_long_churn, P_granule_runs, P_burst_fail, P_multi_pages_checked;
 
 struct Region { uint64_t base, len; int kind; /*0 slab,1 large*/ int64_t pages; int by_task, by_op; uint64_t cls; bool counted; int64_t live = 0; int last_free_task = 0; uint64_t last_free_step = 0; };
-struct Block { char *ptr = nullptr; size_t req = 0, reported = 0; uint64_t pat = 0; int owner = 0; int alloc_task = 0; bool live = false, offered = false, inflight = false; VC chan; };
+struct Block { char *ptr = nullptr; size_t req = 0, reported = 0; uint64_t pat = 0; int owner = 0; int alloc_task = 0; bool live = false, offered = false, inflight = false, busy = false; VC chan; };
 
 struct SlabEngine;
 static SlabEngine *G;
@@ -178,7 +178,7 @@ struct SlabEngine : Engine {
 				else if (pick(w_gs)) o.kind = OP_GETSIZE;
 				else if (pick(w_ver)) o.kind = OP_VERIFY;
 				else if (pick(w_give)) o.kind = OP_GIVE;
-				else if (pick(w_take)) { o.kind = OP_TAKE; o.a[0] = (int)rng.below(std::min(NH, nh * p.ntasks)); }
+				else if (pick(w_take)) { o.kind = OP_TAKE; o.a[0] = (int)rng.below(std::min(NH, nh * p.ntasks)); o.a[1] = rng.below(4); o.a[2] = (int64_t)gen_size(rng, P, focus, allow_large); }
 				else if (pick(w_pages)) o.kind = OP_PAGES;
 				else if (pick(w_bulk)) {
 					// fill whole slabs of one class: count is chosen around the number of objects that fit in one or two slabs
@@ -673,6 +673,12 @@ struct SlabEngine : Engine {
 
 	void do_realloc(int me, const Op &op, int h, size_t n) {
 		Block &b = blk[h];
+		b.busy = true;
+		do_realloc_inner(me, op, h, n);
+		b.busy = false;
+	}
+	void do_realloc_inner(int me, const Op &op, int h, size_t n) {
+		Block &b = blk[h];
 		verify(h, b.req, b.pat, "before realloc");
 		char *oldp = b.ptr; size_t oldreq = b.req, oldrep = b.reported; uint64_t oldpat = b.pat; size_t oldw = written_size[h];
 		begin_call(me, op);
@@ -737,11 +743,11 @@ struct SlabEngine : Engine {
 		bool mine = b.live && b.owner == me && !b.offered;
 		switch (op.kind) {
 		case OP_ALLOC:
-			if (b.live || b.offered) { probe(P_skipped); return; }
+			if (b.live || b.offered || b.busy) { probe(P_skipped); return; } // busy: another task's realloc is moving the slot's block right now
 			do_alloc(me, op, h, (size_t)op.a[1], false);
 			break;
 		case OP_REALLOC_NULL:
-			if (b.live || b.offered) { probe(P_skipped); return; }
+			if (b.live || b.offered || b.busy) { probe(P_skipped); return; }
 			do_alloc(me, op, h, (size_t)op.a[1], true);
 			break;
 		case OP_FREE: if (!mine) { probe(P_skipped); return; } do_free(me, op, h, 0, 0); break;
@@ -761,16 +767,33 @@ struct SlabEngine : Engine {
 			break; }
 		case OP_VERIFY: if (!mine) { probe(P_skipped); return; } verify(h, b.req, b.pat, "verify"); break;
 		case OP_GIVE:
-			if (!mine) { probe(P_skipped); return; }
+			if (!mine) { // offer some block this task owns (the first one at or after the named slot)
+				int f = -1; for (int k = 0; k < NH; k++) { int x = (h + k) % NH; if (blk[x].live && blk[x].owner == me && !blk[x].offered) { f = x; break; } }
+				if (f < 0) { probe(P_skipped); return; }
+				Block &g = blk[f]; g.chan.clear(); hb_release(g.chan); g.offered = true; g.owner = 0;
+				if (getenv("SLAB_TRACE")) fprintf(stderr, "t%d give(fallback) slot %d ptr +0x%llx\n", me, f, (unsigned long long)off(g.ptr));
+				return;
+			}
 			b.chan.clear(); hb_release(b.chan); b.offered = true; b.owner = 0;
 			break;
 		case OP_TAKE: {
 			bool got = false;
-			for (int tries = 0; tries < 12; tries++) {
-				if (b.live && b.offered) { hb_acquire(b.chan); b.offered = false; b.owner = me; got = true; probe(P_handover); break; }
-				yield();
+			for (int tries = 0; tries < 12 && !got; tries++) {
+				for (int k = 0; k < NH; k++) { int x = (h + k) % NH; if (blk[x].live && blk[x].offered) { h = x; got = true; break; } } // any offered block, starting at the named slot
+				if (!got) yield();
 			}
-			if (!got) probe(P_take_fail);
+			if (!got) { probe(P_take_fail); break; }
+			Block &b = blk[h];
+			hb_acquire(b.chan); b.offered = false; b.owner = me; probe(P_handover);
+			if (getenv("SLAB_TRACE")) fprintf(stderr, "t%d take slot %d ptr +0x%llx req %zu alloc_task %d action %d\n", me, h, (unsigned long long)off(b.ptr), b.req, b.alloc_task, (int)(op.a[1] & 3));
+			// the taker now uses a block another task allocated: verify it, then free / deallocate / realloc it (or keep it)
+			verify(h, b.req, b.pat, "take");
+			switch (op.a[1] & 3) {
+			case 1: do_free(me, op, h, 0, 0); break;
+			case 2: do_free(me, op, h, 1, (size_t)op.a[2]); break;
+			case 3: do_realloc(me, op, h, (size_t)(op.a[2] > 0 ? op.a[2] : 1)); break;
+			default: break;
+			}
 			break; }
 		case OP_PAGES: {
 			if (!single) return;
